@@ -2095,6 +2095,7 @@ class CodeGenerator(StructuredCodeGenerator):
         self.emitter.emit_else()  # pylint:disable=no-member
 
     def emit_for_begin(self, loop_var_name, lbound, ubound):
+        self.loop_nesting_depth = getattr(self, "loop_nesting_depth", 0) + 1
         em = FortranDoEmitter(
                 self.emitter,
                 self.name_manager[loop_var_name],
@@ -2106,6 +2107,7 @@ class CodeGenerator(StructuredCodeGenerator):
 
     def emit_for_end(self, loop_var_name):
         self.emitter.__exit__(None, None, None)
+        self.loop_nesting_depth -= 1
 
     def emit_assign_expr(self, assignee_sym, assignee_subscript, expr):
         from dagrt.data import Array, UserType
@@ -2287,6 +2289,12 @@ class CodeGenerator(StructuredCodeGenerator):
         :attr:`current_function`. If so, emit code to deallocate that variable.
         """
         from dagrt.utils import is_state_variable
+
+        if getattr(self, "loop_nesting_depth", 0):
+            # The textually last use is not the last use in time: the next
+            # iteration of the loop uses the variable again. It gets released
+            # at the end of the phase.
+            return
 
         read_and_written = inst.get_read_variables() | inst.get_written_variables()
 
